@@ -8,7 +8,9 @@ import (
 	"io"
 	"log"
 	"os"
+	"runtime"
 	"strings"
+	"time"
 
 	"github.com/smart-core-os/sc-golang/internal/verif/vk"
 )
@@ -52,7 +54,7 @@ func childMain() {
 // input. The final quiescent point (nothing left to release) decides hang and leak from goroutine state.
 func runScenario(sp *Spec) *Outcome {
 	oc := &Outcome{I: sp.I, Counts: map[string]int{}}
-	gs0, ok := vk.Quiesce()
+	gs0, ok := quiesce(oc)
 	oc.Quiet++
 	if !ok {
 		oc.Inconclusive = "process not quiescent before the scenario: " + vk.DescribeGs(gs0)
@@ -78,7 +80,7 @@ func runScenario(sp *Spec) *Outcome {
 	pcancelled := false
 	var final []vk.G
 	for {
-		gs, ok := vk.Quiesce()
+		gs, ok := quiesce(oc)
 		oc.Quiet++
 		if !ok {
 			oc.Inconclusive = "quiescence watchdog fired during the scenario: " + vk.DescribeGs(gs)
@@ -103,6 +105,9 @@ func runScenario(sp *Spec) *Outcome {
 	}
 
 	o := &obs{sp: sp, returned: task.Done()}
+	if !o.returned {
+		o.hangDump = fullDump(final, base)
+	}
 	o.log, o.starts, o.retMsg, o.retErr = a.snapshot()
 	if o.returned {
 		o.res, o.panicked, o.what = res, panicked, what // task.done was closed after these were written
@@ -146,7 +151,7 @@ func runScenario(sp *Spec) *Outcome {
 		oc.Counts["hangs"]++
 		// try to unwind what can be unwound, the process is replaced afterwards anyway
 		cancel()
-		vk.Quiesce()
+		quiesce(oc)
 		oc.Quiet++
 		oc.Recycle = true
 	}
@@ -197,4 +202,52 @@ func firstLine(s string) string {
 		return s[:i]
 	}
 	return s
+}
+
+// fullDump renders the goroutines that are not in the baseline with all their frames.
+func fullDump(gs []vk.G, base map[int]bool) string {
+	var sb strings.Builder
+	for _, g := range gs {
+		if base[g.ID] {
+			continue
+		}
+		fmt.Fprintf(&sb, "g%d [%s] created by %s:", g.ID, g.State, g.Created)
+		for _, f := range g.Funcs {
+			sb.WriteString(" " + f)
+		}
+		sb.WriteString("\n")
+	}
+	return sb.String()
+}
+
+// quiesce is vk.Quiesce plus one more requirement: a goroutine in state "semacquire" must be parked in a
+// sync-package semaphore (sync.WaitGroup.Wait and friends, visible as sync.runtime_Semacquire* on top of its
+// stack). The runtime also parks goroutines in "semacquire" on its own semaphores (gcsema, worldsema,
+// work.startSema: a goroutine whose allocation starts a GC cycle waits there for the previous cycle's
+// termination, which runs on a hidden system goroutine, or for the stop-the-world of the observer's own dump).
+// Such a goroutine continues by itself, so the state is not quiescent even though every visible goroutine looks
+// blocked. Runtime frames are elided from the dump, so the distinction is made on the innermost visible frame.
+func quiesce(oc *Outcome) ([]vk.G, bool) {
+	for {
+		gs, ok := vk.Quiesce()
+		if !ok {
+			return gs, false
+		}
+		transient := false
+		for _, g := range gs {
+			if g.State != "semacquire" {
+				continue
+			}
+			if len(g.Funcs) > 0 && (strings.HasPrefix(g.Funcs[0], "sync.runtime_Semacquire") || strings.HasPrefix(g.Funcs[0], "internal/poll.runtime_Semacquire")) {
+				continue
+			}
+			transient = true
+		}
+		if !transient {
+			return gs, true
+		}
+		oc.Counts["quiesce/runtime-semaphore-wait-rejected"]++
+		runtime.Gosched()
+		time.Sleep(50 * time.Microsecond) // lets the hidden runtime goroutine finish; never decides anything
+	}
 }
